@@ -155,7 +155,8 @@ def run(tier, seed):
             r = sr.run_impl(cfg, wd)
             cases.append((cfg, r))
             for key, what in spec_oracle(cfg, r):
-                violations.append(Violation(key, what, {"case": cfg}))
+                # the order in which random numbers are requested is how the tie lines the streams up, not part of the statement
+                violations.append(Violation(key, what, {"case": cfg, "no_failing_input_found": key == "rng-pattern"}))
             if r.exception is None:
                 coq.append(sr.coq_case(cfg, r, lits))
             else:
